@@ -49,7 +49,7 @@ Qed.
 Lemma bstep_refines c p ls s l s' :
   Refines c p ls s -> bstep s l = Some s' -> Refines c p (ls ++ [l]) s'.
 Proof.
-  intros HR Hs. destruct l as [x|r|r|r|r]; cbn [bstep] in Hs.
+  intros HR Hs. destruct l as [x|r|r|r|r|]; cbn [bstep] in Hs.
   - inversion Hs; subst; clear Hs. destruct HR as (Hb & Hd & Ha). unfold Refines. cbn [base dlv sops].
     rewrite run_snoc, arrivals_app, barrivals_app. cbn [fst snd]. rewrite <- Hb, Ha.
     rewrite returned_app.
@@ -62,6 +62,9 @@ Proof.
   - destruct HR as (Hb & Hd & Ha).
     destruct (rd s r); try discriminate; inversion Hs; subst; unfold Refines; cbn [base dlv sops];
       rewrite barrivals_app; cbn [barrivals]; rewrite app_nil_r; auto.
+  - inversion Hs; subst; clear Hs. destruct HR as (Hb & Hd & Ha). unfold Refines. cbn [base dlv sops].
+    rewrite run_snoc, arrivals_app, barrivals_app. cbn [fst snd]. rewrite <- Hb, Ha.
+    rewrite returned_app. cbn [step snd returned arrivals barrivals]. rewrite !app_nil_r. auto.
 Qed.
 
 Lemma brun_refines_gen c p ls2 : forall ls1 s s',
